@@ -493,6 +493,18 @@ def gen_c02_decls(rng, tier):
         return [bl[i] for i in perm], trail
     family("String", str_blocks, [(p, bool(i % 2), bool((i // 2) % 2)) for i, p in enumerate(perms[::2])])
 
+    # flags never change what the rules mean: const_fn / new_unchecked in any position
+    def flag_family(inner, base_blocks):
+        variants = [([], []), ([[tid("const_fn")]], []), ([], [[tid("const_fn")]]), ([[tid("new_unchecked")]], []), ([[tid("const_fn")], [tid("new_unchecked")]], []),
+                    ([[tid("new_unchecked")]], [[tid("const_fn")]])]
+        family(inner, lambda v: (v[0] + base_blocks() + v[1], False), variants)
+    flag_family("i32", lambda: [block("sanitize", [[tid("with"), EQ, tfn(0, "p", "s")]]),
+                                block("validate", [[tid("greater_or_equal"), EQ, li(50)], [tid("less_or_equal"), EQ, li(100)]]), D(["Debug"])])
+    flag_family("i32", lambda: [block("sanitize", [[tid("with"), EQ, tfn(0, "p", "s")]]),
+                                block("validate", [[tid("less"), EQ, li(100)], [tid("greater"), EQ, li(0)]]), D(["Debug"])])
+    flag_family("f64", lambda: [block("sanitize", [[tid("with"), EQ, tfn(0, "p", "s")]]),
+                                block("validate", [[tid("finite")], [tid("less_or_equal"), EQ, lf("100.0")], [tid("greater_or_equal"), EQ, lf("50.0")]]), D(["Debug"])])
+
     def f_blocks(v):
         perm, form_p, trail = v
         bl = [block("validate", [[tid("finite")], [tid("greater_or_equal"), EQ, lf("0.0")], [tid("predicate"), EQ, tfn(0, form_p, "p")]], trailing=trail),
